@@ -294,6 +294,7 @@ func runC09(c *Check, a *Analysis) {
 	ruleUpgradeOwner(c, a, "R-UPGRADE-OWNER")
 	ruleStreamCtxStable(c, a, "R-STREAM-CTX-STABLE")
 	ruleStreamSeqAssigned(c, a, "R-STREAM-SEQ")
+	rulePushCtx(c, a, "R-PUSH-CTX")
 	ruleReaderTotal(c, a, "R-READER-TOTAL")
 	ruleCopyDestFresh(c, a, "R-COPY-DEST-FRESH")
 	// the stream's single long-lived Call is a shared slot: per-message data must not cross the queue hop in it
@@ -392,6 +393,8 @@ func runC10(c *Check, a *Analysis) {
 	ls := a.Locks()
 	sc := siteCounter{}
 	ruleLockBalance(c, a, "R-LOCK-BALANCE", "stream.mut", "Conn.mutex", "Server.mutex")
+	ruleStreamCond(c, a, "R-STREAM-COND")
+	ruleWGDiscipline(c, a, "R-WG-DISCIPLINE")
 
 	ruleStop(c, a, "R-STOP")
 
@@ -633,7 +636,18 @@ func ruleStreamCtxStable(c *Check, a *Analysis, rule string) {
 	ctxParam := ssa.Value(sp.Params[1])
 	for e := range edges {
 		var why string
+		relSites := a.Releases().sitesIn(sp)
 		w, _, bad := p.reachFromBlock(sp, e.to, func(x ssa.Instruction) bool {
+			for _, r := range relSites {
+				if r.Instr == x && r.Kind.Name == resContext.Name && p.varKey(r.Res) == interface{}(ctxParam) {
+					why = "the Context is returned to the pool"
+					return true
+				}
+			}
+			if isCallTo(x, "(*Context).Reset") {
+				why = "the Context is reset"
+				return true
+			}
 			st, ok := x.(*ssa.Store)
 			if !ok {
 				return false
